@@ -67,7 +67,7 @@ def run_A(ob, twin):
                        fn_syntax_messages=[], counterexample_description_maker=capture)
     timeout = min(ob.timeout, max(90.0, 0.4 * ob.timeout)) if twin else ob.timeout
     options = DEFAULT_OPTIONS.overlay(AnalysisOptionSet(per_condition_timeout=timeout,
-                                                        per_path_timeout=ob.path_timeout))
+                                                        per_path_timeout=max(ob.path_timeout, ob.timeout / 4.0)))
     options.stats = Counter()
     options.deadline = process_time() + timeout
     t0, c0 = time.time(), process_time()
